@@ -15,7 +15,8 @@ def run_versions(mode, versions, ctx, timeout=3000):
     def one(v):
         out = os.path.join(tmp, f"{v}.json")
         cmd = [sys.executable, "-m", "harness.c1516_worker", mode, v, ctx.tier, str(ctx.seed), "1" if ctx.escalate else "0", out]
-        p = subprocess.run(cmd, cwd=common.ROOT, env=env, capture_output=True, text=True, timeout=timeout)
+        # cwd = scratch: the library writes `error_file.txt` into the working directory when a parse fails
+        p = subprocess.run(cmd, cwd=tmp, env=env, capture_output=True, text=True, timeout=timeout)
         if p.returncode != 0 or not os.path.exists(out):
             return v, None, (p.stdout[-1500:] + p.stderr[-3000:])
         return v, json.load(open(out)), ""
